@@ -113,6 +113,9 @@ pub struct Probe<'a> {
     pub massf: Option<MassFn<'a>>,
     pub events: Vec<EventSpec>,
     pub answer: Option<AnswerFn<'a>>,
+    /// answer hook for RHS calls made while the default finite-difference Jacobian is being formed
+    /// (index = position among those calls)
+    pub answer_in_jac: Option<AnswerFn<'a>>,
     pub budget: u64,
     pub keep_log: bool,
     pub st: RefCell<ProbeState>,
@@ -129,6 +132,7 @@ impl<'a> Probe<'a> {
             massf: None,
             events: vec![],
             answer: None,
+            answer_in_jac: None,
             budget: 2_000_000,
             keep_log: false,
             st: RefCell::new(st),
@@ -174,8 +178,8 @@ impl<'a> IVP for Probe<'a> {
             }
             in_jac = st.in_jac;
             if in_jac {
+                idx = st.n_ode_in_jac;
                 st.n_ode_in_jac += 1;
-                idx = u64::MAX;
             } else {
                 idx = st.n_ode;
                 st.n_ode += 1;
@@ -184,7 +188,7 @@ impl<'a> IVP for Probe<'a> {
             }
             Self::note_time(&mut st, x);
             if self.keep_log {
-                st.log.push(OdeCall { idx, t: x, y: y.to_vec(), in_jac });
+                st.log.push(OdeCall { idx: if in_jac { u64::MAX } else { idx }, t: x, y: y.to_vec(), in_jac });
             }
             if st.n_ode + st.n_ode_in_jac > self.budget {
                 st.budget_hit = true;
@@ -197,6 +201,8 @@ impl<'a> IVP for Probe<'a> {
             if let Some(a) = self.answer {
                 a(idx, x, y, dydx);
             }
+        } else if let Some(a) = self.answer_in_jac {
+            a(idx, x, y, dydx);
         }
     }
 
